@@ -136,11 +136,17 @@ class Ctx:
                 ids.add("C12")
             if self.pid in ids:
                 res["mine"].append(dict(x, seg=seg))
-        # a contract breach with no earlier violation in the same segment is a harness bug
+        # A contract breach is a harness bug unless the code under test has already misbehaved earlier
+        # in this run (the harness keeps its own record of what it asked for; once a call has had a
+        # wrong effect that record and the reference drift apart, also across `load` segments).
+        first_viol = min((x["l"] for x in v["viols"]), default=None)
         for b in v["breaches"]:
-            seg = segment_start(lines, b["l"])
-            if seg not in first_viol_in_segment or first_viol_in_segment[seg] > b["l"]:
+            if first_viol is None or first_viol > b["l"]:
                 raise ToolError(f"harness left the contract in {name} at event {b['l']}: {b['info']}")
+        res["drift"] = len(v["drift"])
+        if v["drift"]:
+            self.notes.append(f"MODEL-DRIFT {name}: the real arena differs from the layer-1 model's next state at {len(v['drift'])} events, first {v['drift'][0]}")
+            log(f"MODEL-DRIFT {name}: {len(v['drift'])} events (diagnostic only), first {v['drift'][0]}")
         if not v["accepted"]:
             raise ToolError(f"trace {name} was not consumed completely: {v['other'][:5]}")
         log(f"[trace] {name}: {coll}/{driver} {h['events']} events, {res['segments']} segments, "
@@ -207,6 +213,7 @@ class Ctx:
                 "traces": [{"name": t["name"], "collection": t["coll"], "driver": t["driver"], "params": t["params"],
                             "events": t["events"], "segments": t["segments"], "state_call_pairs": t["pairs"],
                             "outcome": t["status"], "violations_for_this_property": len(t["mine"])} for t in self.traces],
+                "model_drift_events": sum(t.get("drift", 0) for t in self.traces),
                 "checker_cmd": f"./check {self.pid} --tier {self.tier}",
                 "notes": self.notes,
             },
@@ -442,6 +449,11 @@ def plan_structure(ctx):
         if coll == "keytree":
             wide["tspan"] = 40
         futs += random_jobs(ctx, [coll], 1 if q else 3, wide, tag="-churn")
+        # large trees, sampled: the snapshot is shipped with every n-th call only
+        big = {"keys": 400 if q else 1500, "steps": 2500 if q else 10000, "seglen": 100000, "clears": 0, "snapevery": 125 if q else 500}
+        if coll == "keytree":
+            big["tspan"] = 200 if q else 800
+        futs += random_jobs(ctx, [coll], 1 if q else 2, big, tag="-big")
     ctx.collect(futs)
     return ctx.finish(COVER_RULE + "; structure predicates (WellFormed / PoolOK / growth bound) are evaluated by TLC on the "
                       "snapshot of every logged state", ASSUME_COMMON)
@@ -643,7 +655,7 @@ def key_suffix(rnd, keys, n, tspan=4):
         k = rnd.randint(1, keys)
         c = rnd.randint(0, 9)
         if c <= 3 and not (k in live and live[k] > t):
-            e = t + rnd.randint(0, tspan)
+            e = 2147483647 if rnd.random() < 0.12 else t + rnd.randint(0, tspan)     # sometimes E::max_expiration()
             ops.append(f"i {k} {e} {k * 1000 + (e % 100) * 10 + rnd.randint(0, 9)} {t}")
             live[k] = e
         elif c <= 5:
@@ -733,7 +745,9 @@ def plan_c12(ctx):
     # expiring-key tree / list (the clock restarts at 0 after the clear)
     kpaths = ctx.cover("cover-key-k3t3c0", "MCKey", key_consts(3, 3, 0), KEY_INV)
     rnd.shuffle(kpaths)
-    kgrow = ["0|" + ";".join(f"i {k} {rnd.randint(3, 9)} {k * 1000 + 1} 3" for k in range(1, 21)) + ";"]
+    kgrow = ["0|" + ";".join(f"i {k} {rnd.randint(3, 9)} {k * 1000 + 1} 3" for k in range(1, 21)) + ";",
+             "0|" + ";".join(f"i {k} 2147483647 {k * 1000 + 1} 0" for k in range(1, 4)) + ";",
+             "0|i 1 2 1001 0;i 2 2147483647 2001 0;le 3 3;"]
     for coll in ("keytree", "keylist"):
         pf = ctx.path(f"twin-{coll}.txt")
         with open(pf, "w") as f:
